@@ -10,7 +10,9 @@ From PV Require Import Base.Prelude Sync.RWLock Sync.Idle.
 Inductive haction :=
 | HW (b : nat)                  (* a burst of b commands in one write: atomic for the idlers *)
 | HRel (s : nat) (last : bool)  (* let idler s out of the drain it is in; last = its batch is then complete *)
-| HDone (s : nat) (ok : bool).  (* client line for idler s (its gate is opened for good) *)
+| HDone (s : nat) (ok : bool)   (* client line for idler s (its gate is opened for good) *)
+| HN (woken : list nat).        (* a burst that left the mailbox as a client sees it unchanged;
+                                   woken = the idlers that started a notification batch on it *)
 
 Record iobs := mkIObs {
   io_phase : list nat;          (* per idler: 0 parked, 1 inside drain, 2 ended OK, 3 ended BAD *)
@@ -109,6 +111,13 @@ Definition act (recheck : bool) (c : cstate) (a : haction) : option cstate :=
           else None
       | None => None
       end
+  | HN woken =>
+      (* only an idler parked in its wait can have been woken *)
+      if forallb (fun s => match nth_error (idlers (c_st c)) s with
+                           | Some i => match ipc_ i with IWait => true | _ => false end
+                           | None => false end) woken
+      then settle recheck (mkC (iexec recheck (c_st c) (map LS woken)) (c_orc c) (c_gated c))
+      else None
   | HDone s ok =>
       (* a line that arrives while the continuation is still being written is read
          only after the update loop has reached its first suspension *)
